@@ -766,10 +766,12 @@ pub fn ref_instr2(s0: &StateSpec, name: &str) -> Expect {
                     }
                     return Expect::Unspecified("float aggregate at or beyond the f32 range");
                 }
+                // f32 accumulation in any order errs by at most (n-1) * 2^-24 * sum|x|
+                let rel = (1e-5f64).max(v.len() as f64 * 1.2e-7);
                 let (val, tol) = if name == "FLOATVECTOR.SUM" {
-                    (sum as f32, (abs * 1e-5) as f32 + 1e-30)
+                    (sum as f32, (abs * rel) as f32 + 1e-30)
                 } else {
-                    ((sum / v.len() as f64) as f32, (abs / v.len() as f64 * 1e-5) as f32 + 1e-30)
+                    ((sum / v.len() as f64) as f32, (abs / v.len() as f64 * rel) as f32 + 1e-30)
                 };
                 s.floats.insert(0, val);
                 return Expect::wild(s, Wild { float_top_tol: Some(tol), ..Default::default() });
